@@ -671,9 +671,18 @@ func (x *XRefParser) ParseAllXRefs() ([]*XRefTable, error) {
 
 	tables := []*XRefTable{mainTable}
 
-	// Parse previous XRefs
+	// Parse previous XRefs. /Prev offsets come from the file: remember the ones
+	// already followed so that a chain that loops back on itself ends in an
+	// error instead of being followed for ever.
+	seenPrev := make(map[int64]bool)
 	currentTable := mainTable
 	for {
+		if prevInt, ok := currentTable.Trailer.Get("Prev").(Int); ok {
+			if seenPrev[int64(prevInt)] {
+				return nil, fmt.Errorf("xref /Prev chain loops back to offset %d", int64(prevInt))
+			}
+			seenPrev[int64(prevInt)] = true
+		}
 		prevTable, err := x.ParsePrevXRef(currentTable)
 		if err != nil {
 			return nil, fmt.Errorf("failed to parse prev xref: %w", err)
